@@ -549,3 +549,10 @@ package j5schema
 // fixed32/sfixed32/fixed64/sfixed64 (kinds 7, 15, 6, 16) and groups (10)
 //@ func buildScalarType
 //@   ensures kind.fixed: fdKind(src) == 6 || fdKind(src) == 16 || fdKind(src) == 7 || fdKind(src) == 15 || fdKind(src) == 10 ==> result1 != nil
+
+// bytes length rules are read back from (buf.validate.field).bytes (C04)
+//@ spec func vBytes(ext protoFieldExtensions) *validate.BytesRules = as(*validate.FieldConstraints_Bytes, ext.validate.Type).Bytes
+//@ func buildScalarType
+//@   ensures bytes.len: result1 == nil && fdKind(src) == 12 && ext.validate != nil && typeis(ext.validate.Type, *validate.FieldConstraints_Bytes) && vBytes(ext) != nil ==>
+//@   |   typeis(result0, *schema_j5pb.Field_Bytes) && as(*schema_j5pb.Field_Bytes, result0).Bytes.Rules != nil
+//@   |   && as(*schema_j5pb.Field_Bytes, result0).Bytes.Rules.MinLength == vBytes(ext).MinLen && as(*schema_j5pb.Field_Bytes, result0).Bytes.Rules.MaxLength == vBytes(ext).MaxLen
